@@ -10,6 +10,7 @@ def run(res, tier):
                        "one of the two inputs, given the external product); vmp kernels with a limb offset zero-fill what they do not write. m1 * m2 within noise, row expansion and radix "
                        "mismatches are not decided.")
     res.rule("KS-1", "digit loops: step == dsize and offset + limb_offset == dsize - 1 on every path")
+    res.rule("KS-2", "digit loops: the limb count given to a digit group is at least the number of limbs its strided copy selects, up to the rows of the key")
     res.rule("CMUX-1", "cmux / cmux_assign / cmux_assign_neg: the operand added after the product is the subtrahend of the difference that was multiplied")
     res.rule("WR-4", "raw-slice vmp kernels taking limb_offset: the zero fill starts one stride after the last written limb")
     res.rule("ROW-1", "row accessors X.at(row, ..) / X.at_mut(row, ..) in a row loop: the loop bound stays within X.dnum() under the comparisons that dominate the access")
@@ -23,6 +24,9 @@ def run(res, tier):
         res.configs.append(p.build_info)
         n = ks1(p, res, ("poulpy_core::external_product",))
         res.floor("KS-1", "digit loops of the external product", n, 1)
+        from .c03 import ks2_report
+        n2 = ks2_report(res)
+        res.floor("KS-2", "digit groups sized inside a digit loop", n2, 1)
         nc = cmux1(p, res)
         res.floor("CMUX-1", "CMux forms", nc, 3)
         from .c11 import wr4
